@@ -39,6 +39,7 @@ LEVEL = {
     "technique": "static analysis: finite-domain abstract evaluation of __aexit__ against a frozen decision table",
 }
 LEVEL["decided"] += " The table includes reactions that raise a new exception explicitly chained to the block's (`raise New from err`); (R13.4) decorator use creates a new manager per call (R15.2, shared)."
+LEVEL["decided"] += ' (R13.5) decorator use: the call runs the function inside one context and returns its result from inside it (R15.1, shared).'
 
 HIER = {
     "BaseException": None, "Exception": "BaseException", "GeneratorExit": "BaseException",
